@@ -49,6 +49,11 @@ def requests(tier, seed):
                                 # non-authenticated requests: every fifth goes through Tor.create_onion_service on a Tor
                                 # whose configuration is still loading, concurrently with another request
                                 viator=(auth_clients is None and key["kind"] != "crlf" and len(out) % 5 == 4)))
+                if auth_clients is None and key["kind"] in ("bare", "prefixed") and not out[-1]["viator"]:
+                    # the same request after a history on this connection: a service from the same key was run and removed
+                    # (a restart), or Tor refused the first attempt to create one
+                    for h in ("removed", "refused"):
+                        out.append(dict(out[-1], key=dict(key), clients=[], ports=[dict(p) for p in ports], history=h, delfail=False))
                 if auth_clients:
                     # the same request, made with an auth object that has already served another service
                     out.append(dict(out[-1], key=dict(key), clients=[dict(c) for c in auth_clients],
